@@ -10,6 +10,9 @@ request into what the shell receives - from the non-inlined MIR of /repo/crux_ht
                           Vec } - nothing else flows into it.
   header_closures         the flat_map closure maps every value of an entry (HeaderValues::iter of THAT entry) with a closure capturing THAT
                           entry's name; the map closure builds HttpHeader { name: to_string(name), value: to_string(value) }.
+  request_setters_delegate  crux_http::Request's set_body / insert_header / append_header / set_content_type hand their arguments to the
+                          same-named http-types method and do nothing else; body_string / body_json / body_form / body_bytes make the body
+                          with http-types' constructor and install it with set_body, nothing else (so content types are http-types' own).
   sent_once               the command API's build() block calls into_protocol_request once and request_from_shell once.
 Native: kani/request_replay - ten requests described through the command API and through the capability API (URL with query,
 escapes and fragment, unicode URL, mixed-case and multi-valued headers, string / JSON / bytes / form bodies, query struct, content-type
@@ -258,7 +261,8 @@ def run_property(prop, cfg, tier, known, only=None):
             pathsF = exF.run_from(State({"_1": vopaque("CL"), "_2": vagg([vopaque("NAME"), vopaque("VALUES")])}, []), "bb0")
             for i, (pc, outcome, notes) in enumerate(pathsF):
                 t = "PANIC" if isinstance(outcome, Panic) else tok(outcome)
-                good = (not isinstance(outcome, Panic)) and re.search(r"HeaderValues::iter\(VALUES\)", t) is not None and re.search(r"\{NAME\}|closure[^)]*NAME", t) is not None and "map" in t
+                # exactly map(iter(values of this entry), closure{this entry's name}): no filter / take / skip in between
+                good = (not isinstance(outcome, Panic)) and re.fullmatch(r"Iterator::map\(HeaderValues::iter\(VALUES\), ?\{closure@[^}]*\}\{NAME\}\)", t) is not None
                 oblige(unit, "every value of THIS entry is mapped with a closure that captured THIS entry's name", pc, "true" if good else "false", sample, {"outcome": t[:120]})
             fnM = one_fn(mir, IPR + r"::\{closure#\d+\}::\{closure#\d+\}\(_1: &mut \{closure@[^}]*\}, _2: &(?:[\w:]+::)?HeaderValue\)", "the map closure")
             exM = ExecC(fnM, Contracts14(), None)
@@ -289,10 +293,40 @@ def run_property(prop, cfg, tier, known, only=None):
         res["samples"].append(sample)
         say(f"  [{unit:>22}] obligations={len(sample['queries'])}")
 
+        unit = "request_setters_delegate"
+        sample = {"unit": unit, "what": "crux_http::Request's setters and body helpers (non-inlined MIR): call lists", "queries": []}
+        try:
+            RQ = r"^fn request::<impl at crux_http/src/request\.rs:[\d: ]+>::"
+
+            def calls_in(name):
+                m_ = re.search(RQ + name + r"(?:::<[^\n(]*>)?\(_1: &mut request::Request[^\n]*\n(.*?)\n}\n", mir, re.M | re.S)
+                if not m_:
+                    raise Unsupported(f"Request::{name} not found")
+                raw = [c.strip() for c in re.findall(r"= ([^=\n]*?)\((?:move|copy|const|\))", m_.group(1))]
+                raw = [c for c in raw if not re.search(r"as Try>::branch$|as FromResidual<.*>>::from_residual$|as AsRef<\[u8\]>>::as_ref$|as From<.*Error>>::from$|^(std::result::)?Result::<.*>::(Ok|Err)$|^<?(std::result::)?Result(::)?<$", c)]
+                return [c if c.startswith("<") else re.sub(r"::<.*$", "", c) for c in raw]
+
+            HT = r"(?:http_types_red_badger_temporary_fork::|http_types::)?"
+            thin = {"set_body": "Request::set_body", "insert_header": "Request::insert_header", "append_header": "Request::append_header", "set_content_type": "Request::set_content_type"}
+            for name, target in thin.items():
+                cl = calls_in(name)
+                holds = len(cl) == 1 and re.fullmatch(HT + target, cl[0]) is not None
+                oblige(unit, f"Request::{name} hands its arguments to http-types' {target} and does nothing else", [], "true" if holds else "false", sample, {"calls": [c[-60:] for c in cl]})
+            makers = {"body_string": "Body::from_string", "body_json": "Body::from_json", "body_form": "Body::from_form", "body_bytes": "<Body as From<&[u8]>>::from"}
+            for name, maker in makers.items():
+                cl = [c for c in calls_in(name) if not re.search(r"as Try>::branch$|as FromResidual<.*>>::from_residual$|as AsRef<\[u8\]>>::as_ref$|as From<.*Error>>::from$", c)]
+                holds = len(cl) == 2 and cl[0].endswith(maker.split("::<")[0]) and re.fullmatch(r"(?:request::)?Request::set_body", cl[1]) is not None
+                oblige(unit, f"Request::{name} makes the body with http-types' {maker} and installs it with set_body, nothing else", [], "true" if holds else "false", sample, {"calls": [c[-60:] for c in cl]})
+        except (Unsupported, KeyError, IndexError, AttributeError, ValueError, TypeError) as u:
+            failed.append(f"{unit}: not in the shape the encoding knows ({type(u).__name__}: {str(u)[:120]})")
+            sample["encoder_gap"] = f"{type(u).__name__}: {u}"
+        res["samples"].append(sample)
+        say(f"  [{unit:>22}] obligations={len(sample['queries'])}")
+
         dev, n = native(binp)
         res["validated_inputs"] = n
-        res["notes"].append(f"native request scenarios: {n} (11 requests x 2 APIs), deviations: {len(dev)}")
-        if n < 22:
+        res["notes"].append(f"native request scenarios: {n} (14 requests x 2 APIs), deviations: {len(dev)}")
+        if n < 28:
             inconclusive(f"native driver produced only {n} scenarios")
         if failed:
             if dev:
